@@ -1161,11 +1161,11 @@ def rule_arg_ld(mod, rep, floor=12):
 # ---------------------------------------------------------------------------------------------------------------------------------
 # ETREE-SCAN (C10 C16): the elimination-tree builders look at every entry of every column
 # ---------------------------------------------------------------------------------------------------------------------------------
-def rule_etree_scan(mod, rep, names=("sp_coletree", "sp_symetree")):
+def rule_etree_scan(mod, rep, names=("sp_coletree", "sp_symetree"), floor=6):
     rep.rule("ETREE-SCAN", "sp_coletree / sp_symetree: every counted loop (over the columns, and over the entries acolst[col] .. acolend[col] of one column) is left only "
              "through its own loop test: Liu's algorithm links the current column with the subtree of EVERY earlier row/column that appears in it; entries are not sorted by "
              "first column, so leaving the scan at the first entry that needs no link (break instead of continue) misses links whenever a 'new' row is stored before an "
-             "'old' one (any non-natural ordering)", floor=6)
+             "'old' one (any non-natural ordering)", floor=floor)
     for nm in names:
         f = mod.funcs.get(nm)
         if f is None or not f.blocks:
@@ -1249,3 +1249,126 @@ def gep_index_first(f, addr):
             continue
         break
     return found
+
+
+# ---------------------------------------------------------------------------------------------------------------------------------
+# PRUNE-SPLIT (C01 C02 C03): a supernode that continues past irep is not pruned at irep;  DFS-BUSY: rows pivoted below the panel are not explored
+# ---------------------------------------------------------------------------------------------------------------------------------
+def _arr_is(f, x, k):
+    """is the load/store x an element access of the array named k - a parameter index, or a field name such as Glu->supno"""
+    for p in f.addr_paths(x):
+        if not p or p[-1] != ("i",):
+            continue
+        if isinstance(k, int) and p == (("A", k), ("i",)):
+            return True
+        if isinstance(k, str) and len(p) >= 3 and p[-2] == ("*",) and p[-3][0] == "f" and p[-3][2] == k:
+            return True
+    return False
+
+
+def _is_load_of(f, o, kparam, idx_pred=None):
+    o = strip_casts(f, o)
+    if o[0] != "v" or f.inst[o[1]].op != "load":
+        return None
+    L = f.inst[o[1]]
+    if not _arr_is(f, L, kparam):
+        return None
+    gi = gep_index(f, L.ops[0])
+    if idx_pred is not None and not idx_pred(gi):
+        return None
+    return L
+
+
+def rule_prune_split(mod, rep):
+    rep.rule("PRUNE-SPLIT", "pxgstrf_pruneL: the stores that prune supernode representative irep (xprune[irep], ispruned[irep]) are reached only on the edge on which "
+             "supno[irep] != supno[irep + 1] - a supernode that has grown past irep into the current panel is pruned at its last column, not here: its row subscripts would "
+             "be permuted while the numeric values of the columns added later stay where they are", floor=1)
+    f = mod.funcs.get("pxgstrf_pruneL")
+    if f is None:
+        rep.brk("ANALYSIS-BROKEN PRUNE-SPLIT: pxgstrf_pruneL not found")
+        return
+    rep.scope([f.name])
+    ks = f.pindex("supno") if f.pindex("supno") is not None else "supno"
+    kx = f.pindex("xprune") if f.pindex("xprune") is not None else "xprune"
+    kp = f.pindex("ispruned") if f.pindex("ispruned") is not None else "ispruned"
+    tests = []
+    for b in f.blocks:
+        t = b.insts[-1]
+        if t.op != "br" or not t.ops or t.ops[0][0] != "v" or len(t.tgt) < 2:
+            continue
+        c = f.inst[t.ops[0][1]]
+        if c.op != "icmp" or c.pred not in ("eq", "ne"):
+            continue
+        La = _is_load_of(f, c.ops[0], ks); Lb = _is_load_of(f, c.ops[1], ks)
+        if not La or not Lb:
+            continue
+        ia, ib = gep_index(f, La.ops[0]), gep_index(f, Lb.ops[0])
+        def plus1(x, y):
+            x = strip_casts(f, x)
+            return x[0] == "v" and f.inst[x[1]].op == "add" and any(same_val(strip_casts(f, o), y) for o in f.inst[x[1]].ops) and any(is_const(strip_casts(f, o), 1) for o in f.inst[x[1]].ops)
+        if ia is None or ib is None or not (plus1(ia, ib) or plus1(ib, ia)):
+            continue
+        tests.append((t, t.tgt[0] if c.pred == "eq" else t.tgt[1], ib if plus1(ia, ib) else ia))
+    stores = [s for s in f.insts() if s.op == "store" and (_arr_is(f, s, kx) or _arr_is(f, s, kp))]
+    if not stores:
+        rep.brk("ANALYSIS-BROKEN PRUNE-SPLIT: no store to xprune[] / ispruned[] in pxgstrf_pruneL")
+        return
+    ok = False; why = "no comparison of supno[irep] with supno[irep + 1]"
+    for (t, eqtgt, irep) in tests:
+        hdrs = {h for h, body in f.loops() if t.bb.id in body}
+        R = f.reach([f.blocks[eqtgt].insts[0]], include_start=True, stop=lambda x: x.bb.id in hdrs and x.pos == 0)
+        hit = [s for s in stores if s.i in R]
+        # and with the test's != edge removed no prune store is reachable from the loop entry
+        if not hit:
+            ok = True
+        else:
+            why = "the prune stores are reachable from the edge on which supno[irep] == supno[irep + 1] (%s)" % hit[0].loc
+    if ok:
+        # every prune store must lie behind the test: remove the != edge and look from the function entry
+        dead = set()
+        for (t, eqtgt, irep) in tests:
+            other = [x for x in t.tgt if x != eqtgt][0]
+            dead.add((t.bb.id, other))
+        # the equal edge continues with the next iteration: stop at loop headers reached from it is not needed here, reachability through the header is legitimate only via the != edge
+        R = f.reach([f.blocks[0].insts[0]], include_start=True, dead_edges=dead)
+        hit = [s for s in stores if s.i in R]
+        if hit:
+            ok = False; why = "a prune store (%s) is reachable without passing the edge supno[irep] != supno[irep + 1]" % hit[0].loc
+    rep.check(ok, "PRUNE-SPLIT", "pxgstrf_pruneL#continuing-supernode", "pruning only where the supernode ends at irep", why, stores[0].loc, f.name)
+
+
+def rule_dfs_busy(mod, rep):
+    rep.rule("DFS-BUSY", "p?gstrf_column_dfs: a row is treated as a row of U (its supernode is looked up through supno[perm_r[krow]] and searched) only on the edge on which "
+             "perm_r[krow] >= fstcol, the first column of the panel: rows pivoted by columns below the panel belong to busy supernodes whose updates arrive through the panel "
+             "update, and their supernode numbers may not even be assigned yet - with one thread every pivoted row is below the panel or in it, so `!= EMPTY` behaves the same", floor=4)
+    for prec, f in fam(mod, "p?gstrf_column_dfs"):
+        rep.scope([f.name])
+        kpr = f.pindex("perm_r"); kf = f.pindex("fstcol"); ks = f.pindex("supno") if f.pindex("supno") is not None else "supno"
+        tests = []
+        for b in f.blocks:
+            t = b.insts[-1]
+            if t.op != "br" or not t.ops or t.ops[0][0] != "v" or len(t.tgt) < 2:
+                continue
+            c = f.inst[t.ops[0][1]]
+            if c.op != "icmp" or c.pred not in ("sge", "slt", "sgt", "sle"):
+                continue
+            for k in (0, 1):
+                L = _is_load_of(f, c.ops[k], kpr)
+                o = strip_casts(f, c.ops[1 - k])
+                if L is not None and o == ["a", kf]:
+                    pred = c.pred if k == 0 else {"sge": "sle", "sle": "sge", "slt": "sgt", "sgt": "slt"}[c.pred]
+                    if pred in ("sge", "slt"):
+                        tests.append((t, L, t.tgt[0] if pred == "sge" else t.tgt[1], t.tgt[1] if pred == "sge" else t.tgt[0]))
+        ok = False; why = "no test perm_r[krow] >= fstcol"
+        for (t, L, getgt, lttgt) in tests:
+            # supno[kperm] reads indexed by that load must not be reachable from the < edge within the iteration
+            hdrs = {h for h, body in f.loops() if t.bb.id in body}
+            R = f.reach([f.blocks[lttgt].insts[0]], include_start=True, stop=lambda x: x.bb.id in hdrs and x.pos == 0)
+            uses = [x for x in f.insts() if x.op == "load" and _arr_is(f, x, ks) and same_val(gep_index(f, x.ops[0]), ["v", L.i])]
+            if uses and not any(u.i in R for u in uses):
+                ok = True
+            elif not uses:
+                why = "supno[perm_r[krow]] is not read"
+            else:
+                why = "supno[perm_r[krow]] is read on the edge perm_r[krow] < fstcol"
+        rep.check(ok, "DFS-BUSY", "%s#U-row" % f.name, "U-rows are the rows pivoted inside the panel", why + ": rows of busy supernodes below the panel are explored", f.file, f.name)
